@@ -171,7 +171,30 @@ def rand_run(r, lp, forced=None):
         # without a solve the LP is neither scaled nor switched to the row representation
         cfg.pop("iterlimit", None)
     parts += ["%s=%s" % (k_, v) for k_, v in sorted(cfg.items())]
+    if lp.m >= 1 and lp.n >= 1 and r.random() < 0.35:
+        # coefficient changes after the solve / setBasis: the factorization has to follow the LP (or the basis be dropped)
+        ch = []
+        for _ in range(r.randint(1, 2)):
+            i, j = r.randrange(lp.m), r.randrange(lp.n)
+            old = lp.rows[i][1].get(j, F(0))
+            v = r.choice([F(x) for x in (-3, -2, -1, 1, 2, 3, 4) if F(x) != old] + ([F(0)] if old != 0 and r.random() < 0.3 else []))
+            ch.append("%d:%d:%s" % (i, j, lpgen.qs(v)))
+        parts.append("chg=" + ",".join(ch))
     return " ".join(parts)
+
+
+def apply_changes(lp, runline):
+    """the LP a run's queries are about: the case LP with the run's coefficient changes applied"""
+    ch = [t[4:] for t in runline.split() if t.startswith("chg=")]
+    if not ch:
+        return lp
+    rows = [(lhs, dict(co), rhs) for (lhs, co, rhs) in lp.rows]
+    for item in ch[0].split(","):
+        i, j, v = item.split(":")
+        i, j = int(i), int(j)
+        if 0 <= i < lp.m and 0 <= j < lp.n:
+            rows[i][1][j] = F(v)
+    return lpgen.LP(lp.maxi, lp.offset, lp.cols, rows, lp.family)
 
 
 def gen_case(r, nmax):
@@ -599,7 +622,10 @@ def main():
             rr = runs.get(rid) or runs.get(rid + "!badparam")
             if rr is None:
                 continue
-            plan_run(ck, Q, "c%d" % k, c, lp, A, rid, runline, rr, found)
+            lpr = apply_changes(lp, runline)
+            if lpr is not lp:
+                ck.count("run:with-coefficient-changes")
+            plan_run(ck, Q, "c%d" % k, c, lpr, A if lpr is lp else dense_A(lpr), rid, runline, rr, found)
             if k < 2 and j == 0:
                 ck.sample({"lp": c["lp"], "run": runline, "status": rr["head"].get("status"), "bind": rr.get("BIND")})
 
